@@ -342,7 +342,7 @@ func genCall(t *rapid.T, s *surface, keys [][]byte, scratchSrv any) Call {
 		// the request type is only known to the handler: let it allocate the
 		// message, fill it by reflection, and abort the call
 		var req proto.Message
-		_, _, _, _ = svcCall(scratchSrv, r, func(m proto.Message) error {
+		_, _, _, _ = svcCallRaw(scratchSrv, r, func(m proto.Message) error {
 			fillRequest(t, m.ProtoReflect(), keys, valid, 0)
 			req = proto.Clone(m)
 			return errAbort
@@ -734,7 +734,8 @@ func (x *exec) doCall(c *Call) {
 			}
 		}
 	case "svc":
-		mutator = svcMutators[c.Method]
+		// a request without content (e.g. a batch without operations) is no mutation
+		mutator = svcMutators[c.Method] && c.Req != "" && c.Req != "{}"
 		r, ok := x.s.rpc(c.Method)
 		if !ok {
 			x.unknownMethods++
@@ -968,7 +969,7 @@ func (x *exec) nodeInfo(ctx string, srv *service.KevoServiceServer, wantRole pb.
 	case info.PrimaryAddress != wantPrimary:
 		x.fail("nodeinfo:primary-address", ctx, fmt.Sprintf("reports primary address %q, configured %q", info.PrimaryAddress, wantPrimary))
 	case info.ReadOnly != wantRO:
-		x.fail("nodeinfo:read-only", ctx, fmt.Sprintf("reports read_only=%v, the node's engine IsReadOnly()=%v", info.ReadOnly, wantRO))
+		x.fail("nodeinfo:read-only", ctx, fmt.Sprintf("reports read_only=%v; a node configured like this must report %v", info.ReadOnly, wantRO))
 	}
 }
 
